@@ -31,7 +31,7 @@ def main():
             tier = sys.argv[i + 1]
     wt = tempfile.mkdtemp(prefix="ev-", dir="/tmp")
     os.rmdir(wt)
-    out = {"property": prop, "patch": patch, "demo": demo}
+    out = {"property": prop, "patch": patch, "demo": demo, "demo_dir": os.path.dirname(demo)}
     try:
         rc, o = sh("git -C /repo worktree add --detach %s HEAD" % wt)
         assert rc == 0, o
@@ -43,6 +43,14 @@ def main():
         src = src.replace(os.path.dirname(os.path.dirname(demo)), wt)     # hard-coded worktree paths
         with open(local_demo, "w") as fp:
             fp.write(src)
+        # helper files shipped next to the demonstration (fake solvers, common code)
+        for extra in os.listdir(os.path.dirname(demo)):
+            if extra.endswith(".py") and not extra.startswith("demo_A") and not extra.startswith("demo_B"):
+                with open(os.path.join(os.path.dirname(demo), extra)) as fp:
+                    esrc = fp.read().replace(os.path.dirname(os.path.dirname(demo)), wt)
+                with open(os.path.join(wt, "_out", extra), "w") as fp:
+                    fp.write(esrc)
+        demo_orig = demo
         demo = local_demo
         rc, o = sh("/venv/bin/python %s" % demo, cwd=wt, timeout=600)
         out["demo_clean_rc"] = rc
